@@ -4,6 +4,7 @@ Line-protocol ops for the belt model (the C side is harness/c03_belt.h):
   belt.compr <h32> <x32>              -> beltCompr: 32 octets
   belt.hash  <chunk> <chunk> ...      -> Start; for each chunk: StepH(chunk), StepG -> the StepG values
   belt.hmac  <key> <chunk> <chunk> .. -> Start(key); for each chunk: StepA(chunk), StepG -> the StepG values
+  belt.addbits <block16> <count>      -> beltBlockAddBitSizeU32(block, count), count decimal < 2^64: 16 octets
 -/
 import Bee2V.C03.Belt
 import Bee2V.Base.Proto
@@ -48,6 +49,14 @@ def handleBelt : List String → Option String
         some (toHex (w8ToBytes (compr (w8OfBytes h) (w8OfBytes x))))
       else some "bad-op"
     | _, _ => some "bad-op"
+  | ["belt.addbits", b, ns] =>
+    match parseTok b, parseNat ns with
+    | some b, some n =>
+      if b.length = 16 ∧ n < 2 ^ 64 ∧ ns.all Char.isDigit then
+        some (toHex (w4ToBytes (addBitSizeU32 (w4OfBytes b) n)))
+      else some "bad-op"
+    | _, _ => some "bad-op"
+  | "belt.addbits" :: _ => some "bad-op"
   | "belt.encr" :: _ => some "bad-op"
   | "belt.compr" :: _ => some "bad-op"
   | "belt.hash" :: chunks =>
